@@ -132,6 +132,9 @@ func renderNH(nh *aft.Afts_NextHop) rendered {
 	if nh.PopTopLabel != nil {
 		x = append(x, [2]uint64{3, map[bool]uint64{true: 1, false: 2}[*nh.PopTopLabel]})
 	}
+	if len(nh.EncapHeader) > 0 {
+		x = append(x, [2]uint64{4, uint64(len(nh.EncapHeader))})
+	}
 	return rendered{T: "nh", Key: nh.GetIndex(),
 		Text:   fmt.Sprintf("nh x=%v", x),
 		CoqKey: fmt.Sprintf("(KNh %d)", nh.GetIndex()), CoqKey0: "(KNh 0)",
